@@ -1001,10 +1001,10 @@ func TestCheck(t *testing.T) {
 		"the non-adjacent mixes inbound A, bare B, inbound C); match part: a route with each of the 12 match shapes (bare pull / inbound{} deliver) in front of and behind an open catch-all (thorough: x 2 paths x 11 partners); "+
 		"labelled part: lists of 2 (thorough: 2..3) routes whose file already carries application/endpoint_name on one route; thorough: lists of 1..2 routes over all 7 spellings (shorthand and wrapper twins). "+
 		"Operations on the running gateway: reload of the unchanged file (run()'s reloadNow), reload after a comment was appended, reload after a bare pull route on an unused path was appended last, reload after a "+
-		"deliver route was appended (documented restart-required), label route #i (PUT /applications/app1/endpoints/ep1 on the Admin handler startServers wired: parse -> label -> Format -> write -> reload), unlabel (DELETE). "+
-		"Sequences per configuration of n routes: reload>reload>comment, comment>append-pull>reload, append-deliver>reload, and for every i: label(i)>reload>unlabel>reload (labelled part: unlabel>reload, reload>unlabel, label(j)>reload for j != i); "+
+		"deliver route was appended (documented restart-required), reload after the file was rewritten with the routes in the opposite order, label route #i (PUT /applications/app1/endpoints/ep1 on the Admin handler startServers wired: parse -> label -> Format -> write -> reload), unlabel (DELETE). "+
+		"Sequences per configuration of n routes: reload>reload>comment, comment>append-pull>reload, append-deliver>reload, reverse>reload>reverse, and for every i: label(i)>reload>unlabel (labelled part: unlabel>reload, reload>unlabel, label(j)>reload for j != i); "+
 		"thorough adds label(i)>label(j)>reload for all i != j, append-pull>label(i)>reload, append-deliver>label(0)>reload, unlabel>reload, and on the 1..2-route lists EVERY sequence of 2 operations over the whole alphabet. "+
-		"The complete request table of the main family (path(10) x method(3), other dimensions when a matcher observes them) is served after boot and after EVERY operation; reference: the main resolver on the route list in the "+
+		"The request table of the main family (path(10) x method(POST, GET; PUT when a route has a method criterion), other dimensions when a matcher observes them) is served after boot and after EVERY operation; reference: the main resolver on the route list in the "+
 		"order the harness wrote it, appended routes behind it once the gateway has answered that the reload / mutation was applied (the gateway's answer decides only that; the rewritten file is never read for expectations). "+
 		"distinct_nontrivial counts (match shape, observed request value, reference verdict) classes, (route path, request path, verdict) classes and "+
 		"(channel tuple, winner position, status) classes reached by the reference")
